@@ -618,6 +618,10 @@ fn run(ctx: &mut Ctx, rep: &mut Report) {
             }
         }
     }
+    // thorough: a stride of the explored scripts is re-run under valgrind memcheck (one extra process)
+    if ctx.shard == 1 && ctx.tier == Tier::Thorough && !ctx.journaling() {
+        valgrind_pass(rep, 20000);
+    }
     // power of the behavioural order check: swapping two same-typed entries must change some transcript
     if ctx.shard == 0 {
         let swaps: Vec<(&str, Box<dyn Fn(&mut FnTable)>)> = vec![
@@ -655,6 +659,72 @@ fn run(ctx: &mut Ctx, rep: &mut Report) {
             rep.bump(&format!("swap_detected:{}", name), detected);
             if detected == 0 {
                 rep.bump(&format!("swap_undetected:{}", name), 1);
+            }
+        }
+    }
+}
+
+/// Runs about `n` explored scripts (a deterministic stride over all scripts of <= 2 steps) in this one
+/// process; meant to be executed under valgrind, whose exit code is the verdict.
+pub fn batch_main(n: usize) {
+    install_panic_hook();
+    let table = fn_table();
+    let inits = initial();
+    let mut all: Vec<(usize, Vec<Step>)> = vec![];
+    for (ii, init) in inits.iter().enumerate() {
+        for s1 in steps_for(init) {
+            all.push((ii, vec![s1.clone()]));
+            let mut pp = crate::subj::parse(init).unwrap();
+            if caught(|| native_run(&mut pp, &[s1.clone()])).is_err() {
+                continue;
+            }
+            if let Some(b) = &pp.packet {
+                if crate::bfs_exec::view_check(&snap(&pp)).is_ok() {
+                    for s2 in steps_for(b) {
+                        all.push((ii, vec![s1.clone(), s2]));
+                    }
+                }
+            }
+        }
+    }
+    let stride = (all.len() / n.max(1)).max(1);
+    let mut ran = 0;
+    let mut bad = 0;
+    for (k, (ii, script)) in all.iter().enumerate() {
+        if k % stride != 0 {
+            continue;
+        }
+        ran += 1;
+        if check_script(&table, &inits[*ii], script).is_err() {
+            bad += 1;
+        }
+    }
+    println!("c15-batch: {} of {} scripts run, {} transcript violations", ran, all.len(), bad);
+}
+
+fn valgrind_pass(rep: &mut Report, n: usize) {
+    let exe = match std::env::current_exe() {
+        Ok(e) => e,
+        Err(_) => return,
+    };
+    let out = std::process::Command::new("valgrind")
+        .args(["-q", "--error-exitcode=9", "--errors-for-leak-kinds=none", "--leak-check=no"])
+        .arg(&exe)
+        .args(["c15-batch", &n.to_string()])
+        .env_remove("RUST_BACKTRACE")
+        .output();
+    match out {
+        Err(e) => rep.notes.push(format!("valgrind not run: {}", e)),
+        Ok(o) => {
+            let text = format!("{}{}", String::from_utf8_lossy(&o.stdout), String::from_utf8_lossy(&o.stderr));
+            let line = text.lines().find(|l| l.starts_with("c15-batch")).unwrap_or("").to_string();
+            rep.notes.push(format!("valgrind memcheck pass: exit {:?}; {}", o.status.code(), line));
+            rep.class("valgrind pass");
+            if o.status.code() == Some(9) {
+                let first: String = text.lines().filter(|l| l.starts_with("==")).take(12).collect::<Vec<_>>().join(" | ");
+                rep.violation("valgrind:memory_error", format!("valgrind memcheck reports an invalid access while the table is driven from C: {}", first), json!({"kind": "valgrind", "n": n}));
+            } else if o.status.code() != Some(0) {
+                rep.notes.push(format!("valgrind run ended abnormally ({:?}): no verdict from it", o.status));
             }
         }
     }
@@ -759,6 +829,17 @@ fn replay(case: &Value) -> Result<String, String> {
                 Err("table layout differs between the header and the library".into())
             } else {
                 Ok("layout agrees".into())
+            }
+        }
+        Some("valgrind") => {
+            let mut rep = Report::default();
+            valgrind_pass(&mut rep, case["n"].as_u64().unwrap_or(2000) as usize);
+            for n in &rep.notes {
+                println!("{}", n);
+            }
+            match rep.violations.first() {
+                Some(v) => Err(v.what.clone()),
+                None => Ok("valgrind reports no invalid access".into()),
             }
         }
         Some("header_probe") => {
